@@ -68,6 +68,9 @@ type TokenEnv struct {
 	Sig      []byte
 	Subject  string
 	Issuer   string
+	// EvilKey is a signing key the verifier does NOT hold: it is stored outside the key directory, in a
+	// sibling directory whose name starts like the key directory's (<Dir>/keys.bak/evil)
+	EvilKey []byte
 }
 
 func NewTokenEnv() *TokenEnv {
@@ -79,6 +82,9 @@ func NewTokenEnv() *TokenEnv {
 		Subject: "alice@verif.test", Issuer: "verif.test"}
 	_ = os.MkdirAll(filepath.Join(dir, "keys"), 0o700)
 	_ = os.WriteFile(filepath.Join(dir, "keys", e.KeyID), Scramble(e.RawKey), 0o600)
+	e.EvilKey = Pattern(32, 4713)
+	_ = os.MkdirAll(filepath.Join(dir, "keys.bak"), 0o700)
+	_ = os.WriteFile(filepath.Join(dir, "keys.bak", "evil"), Scramble(e.EvilKey), 0o600)
 	e.PoolFile = filepath.Join(dir, "pool_key")
 	_ = os.WriteFile(e.PoolFile, Scramble(e.PoolKey), 0o600)
 	now := time.Now().Unix()
